@@ -83,3 +83,9 @@ CASES += [
     dict(id='c04-eq-argument-file-nesting-test-form', prop='C04', file=H, expect=None,
          old="   if (++mArgFileNesting > MaxArgFileNesting)\n      throw runtime_error(", new="   ++mArgFileNesting;\n   if (mArgFileNesting >= MaxArgFileNesting + 1)\n      throw runtime_error("),
 ]
+
+CASES += [
+    dict(id='c04-eq-move-ctor-by-exchange', prop='C04', file=A, expect=None,
+         edits=[(A, "   mpArgV( other.mpArgV)\n{\n\n   other.mpArgV = nullptr;", "   mpArgV( std::exchange( other.mpArgV, nullptr))\n{\n"),
+                (A, "#include \"celma/appl/arg_string_2_array.hpp\"", "#include \"celma/appl/arg_string_2_array.hpp\"\n#include <utility>")]),
+]
